@@ -1,5 +1,8 @@
 use std::collections::HashMap;
+#[cfg(not(cached_verif))]
 use std::sync::atomic::{AtomicU64, Ordering};
+#[cfg(cached_verif)]
+use crate::verif_rt::sync::atomic::{StatsAtomicU64 as AtomicU64, Ordering};
 
 use crossbeam_utils::CachePadded;
 
